@@ -5,6 +5,7 @@ import FrappyProofs.Lemmas.ActivateQuiet
 import FrappyProofs.Lemmas.ActivateExplicit
 import FrappyProofs.Lemmas.ActivateTables
 import FrappyProofs.Lemmas.ActivateMatch
+import FrappyProofs.Lemmas.ActivateLossExplicit
 import FrappyModel.Generated.C08
 /-
 C08 — property theorems (nothing but property theorems and their non-vacuity examples).
@@ -77,6 +78,25 @@ scope taken from the marker (`SnapshotExplicit`) follows from `SnapshotComplete`
 theorem snapshot_monitor_sound (cfg : Cfg) (cache : Mod → Par → Entry) (tr : List Obs)
     (h : SnapshotComplete cfg cache tr) : SnapshotExplicit cfg cache tr :=
   snapshotExplicit_of_complete cfg cache tr h
+
+/-- `no_loss` without the monitor (`NoLossExplicit`, the index form of the English sentence): a value stored by updater `u`
+at position `i` whose assignment returns at position `j` has been delivered, strictly between `i` and `j`, to every
+connection `c` of the node for which `m:p` was firmly covered when the value was stored and still was after each request
+marker of `c` up to `j`.  "Firmly covered" is `firmAfter`, which `firm_in_force_explicit` spells out. -/
+theorem no_loss_explicit (cfg : Cfg) (hs : Conn → List Req) (us : Nat → List (Mod × Par × Entry))
+    (cache : Mod → Par → Entry) (σ : State) (h : Reach cfg (init hs us cache) σ) : NoLossExplicit cfg σ.trace :=
+  noLossExplicit_of_noLoss cfg σ.trace (no_loss cfg hs us cache σ h)
+
+/-- what `lossMon` accepts is what the sentence says, for any trace (model or implementation) -/
+theorem noloss_monitor_sound (cfg : Cfg) (tr : List Obs) (h : NoLoss cfg tr) : NoLossExplicit cfg tr :=
+  noLossExplicit_of_noLoss cfg tr h
+
+/-- an activation `s` of `c` is firmly in force after `tr` iff its `active` reply is in `tr` and no later request marker of
+`c` ends it (the matching `deactivate`, `*IDN?`, a disconnect) -/
+theorem firm_in_force_explicit (tr : List Obs) (c : Conn) (s : Scope) :
+    s ∈ firmAfter tr c ↔ ∃ j : Nat, tr[j]? = some (.reply c (.activate s) true) ∧
+      ∀ (k : Nat) (o : Obs), j < k → tr[k]? = some o → ¬ endsMarker c s o :=
+  mem_firmAfter tr c s
 
 /-- the executable quiescence test the driver uses is the `Quiet` of the specification -/
 theorem quiet_monitor_exact (tr : List Obs) : quietB tr = true ↔ Quiet tr := quietB_iff tr
@@ -237,6 +257,17 @@ example : ((run exCfg exInit2 exActs2).map (fun σ => (σ.trace[0]?, σ.trace[1]
       matchMon.accepts σ.trace, (snapMon exCfg (fun _ _ => .val 0)).accepts σ.trace))) =
     some (some (.reqStart 1 (.activate (.par mT pTarget))), some (.deliver 1 mT pTarget (.val 0)),
           some (.reply 1 (.activate (.par mT pTarget)) true), some (.deliver 1 mT pTarget (.val 7)), true, true) := by rfl
+
+/-- `no_loss_explicit` is about something: in the same trace the store is at position 3, the return at 5, connection 1 is
+firmly covered at the store, and the delivery is at position 4 -/
+example : ((run exCfg exInit2 exActs2).map (fun σ => (σ.trace[3]?, σ.trace[4]?, σ.trace[5]?,
+      coveredBy (firmAfter (σ.trace.take 3) 1) mT pTarget, (lossMon exCfg).accepts σ.trace))) =
+    some (some (.emit 1 mT pTarget (.val 7)), some (.deliver 1 mT pTarget (.val 7)), some (.emitDone 1), true, true) := by rfl
+
+/-- the loss monitor is not trivially true: the same trace without the delivery is rejected -/
+example : (lossMon exCfg).accepts
+    [.reqStart 1 (.activate (.par mT pTarget)), .deliver 1 mT pTarget (.val 0), .reply 1 (.activate (.par mT pTarget)) true,
+     .emit 1 mT pTarget (.val 7), .emitDone 1] = false := by rfl
 
 /-- the match monitor is not trivially true: a reply that answers another request than the open one is rejected -/
 example : matchMon.accepts [.reqStart 1 (.activate .all), .reply 1 (.deactivate .all) true] = false := by decide
